@@ -17,7 +17,7 @@
 mod base;
 mod recipe;
 
-use std::collections::{BTreeMap, BTreeSet};
+use std::collections::BTreeSet;
 use std::sync::Arc;
 
 use pczt::roles::combiner::{Combiner, Error as CombineError};
@@ -719,6 +719,725 @@ fn check_encoding(ctx: &Ctx, c: &EncodingCase) -> CaseResult {
         .label_if(known_placeholder, "known-placeholder"))
 }
 
+// ---------------------------------------------------------------------------------------------
+// Roles
+// ---------------------------------------------------------------------------------------------
+
+#[derive(Clone, Debug)]
+enum Step {
+    /// Updater / Signer(apply) / low-level Signer additions: (key selector, value variant)
+    Add(Vec<(u32, u8)>),
+    /// `Signer::sign_*` with the real keys; bit i of the mask selects the i-th signable item
+    SignHigh(u16),
+    /// Redactor: (key selector, any key / settable key)
+    Redact(Vec<(u32, bool)>),
+    CombineSelf,
+    CombineSnapshot(u8, bool),
+    FinalizeSpends,
+    Verify(u8),
+    Roundtrip(bool),
+    IoFinalizeAgain,
+    LowLevelNoop(u8),
+}
+
+#[derive(Clone, Debug)]
+struct RolesCase {
+    base_sel: u32,
+    refinalize: bool,
+    steps: Vec<Step>,
+}
+
+fn arb_step() -> impl Strategy<Value = Step> {
+    prop_oneof![
+        5 => prop::collection::vec((any::<u32>(), prop_oneof![9 => Just(0u8), 1 => Just(1u8)]), 1..6).prop_map(Step::Add),
+        3 => any::<u16>().prop_map(Step::SignHigh),
+        5 => prop::collection::vec((any::<u32>(), any::<bool>()), 1..8).prop_map(Step::Redact),
+        1 => Just(Step::CombineSelf),
+        2 => (any::<u8>(), any::<bool>()).prop_map(|(i, o)| Step::CombineSnapshot(i, o)),
+        2 => Just(Step::FinalizeSpends),
+        3 => (0u8..4).prop_map(Step::Verify),
+        2 => any::<bool>().prop_map(Step::Roundtrip),
+        1 => Just(Step::IoFinalizeAgain),
+        2 => (0u8..4).prop_map(Step::LowLevelNoop),
+    ]
+}
+
+fn arb_roles_case() -> impl Strategy<Value = RolesCase> {
+    (any::<u32>(), prop::bool::weighted(0.15), prop::collection::vec(arb_step(), 3..12))
+        .prop_map(|(base_sel, refinalize, steps)| RolesCase { base_sel, refinalize, steps })
+}
+
+const SOFT: &str = "role-rejected-valid-request";
+
+fn soft<E: std::fmt::Debug>(what: &'static str) -> impl Fn(E) -> Fail {
+    move |e| Fail::new(SOFT, format!("{what}: {e:?}"))
+}
+
+fn pool_bundle(p: &Pczt, pool: recipe::Pool) -> &pczt::orchard::Bundle {
+    match pool {
+        recipe::Pool::Orchard => p.orchard(),
+        recipe::Pool::Ironwood => p.ironwood(),
+    }
+}
+
+/// Does the documentation promise that the effects (hence the txid) of `p` can be computed?
+/// v5 needs the anchors of non-empty bundles; a missing `cv_net` needs both values and `rcv`; a
+/// missing `cmx` or a memo-plaintext `enc_ciphertext` needs the output's recipient, value and rseed.
+fn effects_promised(b: &Base, p: &Pczt, gone: &BTreeSet<Key>) -> bool {
+    if !b.v6 {
+        if (!p.sapling().spends().is_empty() || !p.sapling().outputs().is_empty()) && p.sapling().anchor().is_none() {
+            return false;
+        }
+        if !p.orchard().actions().is_empty() && p.orchard().anchor().is_none() {
+            return false;
+        }
+    }
+    for pool in [recipe::Pool::Orchard, recipe::Pool::Ironwood] {
+        for (i, a) in pool_bundle(p, pool).actions().iter().enumerate() {
+            let i = i as u8;
+            let out_known = a.output().recipient().is_some() && a.output().value().is_some() && a.output().rseed().is_some();
+            if a.cv_net().is_none()
+                && (gone.contains(&Key::OAct(pool, i, OA::SpValue)) || gone.contains(&Key::OAct(pool, i, OA::Rcv)) || a.output().value().is_none())
+            {
+                return false;
+            }
+            // the orchard crate parses a spend's rseed relative to its rho (ParseError::MissingRho)
+            if gone.contains(&Key::OAct(pool, i, OA::SpRho)) && !gone.contains(&Key::OAct(pool, i, OA::SpRseed)) {
+                return false;
+            }
+            if a.output().cmx().is_none() && !out_known {
+                return false;
+            }
+            if matches!(a.output().enc_ciphertext(), pczt::orchard::EncCiphertext::MemoPlaintext(_)) && !out_known {
+                return false;
+            }
+        }
+    }
+    true
+}
+
+fn compacted(p: &Pczt, pool: recipe::Pool) -> bool {
+    pool_bundle(p, pool).actions().iter().any(|a| {
+        a.cv_net().is_none() || a.output().cmx().is_none() || matches!(a.output().enc_ciphertext(), pczt::orchard::EncCiphertext::MemoPlaintext(_))
+    })
+}
+
+/// Every signature carried by `p` verifies against the signature hashes computed from the builder's
+/// parts. Returns the number of signatures checked.
+fn verify_signatures(b: &Base, p: &Pczt) -> Result<u64, Fail> {
+    use pczt::roles::verifier::Verifier;
+    let mut n = 0u64;
+    let mut bad: Option<String> = None;
+    let secp = secp256k1::Secp256k1::verification_only();
+    let _ = Verifier::new(p.clone()).with_transparent::<(), _>(|t| {
+        for (i, inp) in t.inputs().iter().enumerate() {
+            for (pk, sig) in inp.partial_signatures() {
+                n += 1;
+                let ok = (|| {
+                    let (der, ty) = sig.split_at(sig.len().checked_sub(1)?);
+                    if ty != [1u8] {
+                        return None;
+                    }
+                    let s = secp256k1::ecdsa::Signature::from_der(der).ok()?;
+                    let pk = secp256k1::PublicKey::from_slice(pk).ok()?;
+                    secp.verify_ecdsa(&secp256k1::Message::from_digest(b.t_sighash_parts[i]), &s, &pk).ok()
+                })();
+                if ok.is_none() {
+                    bad = Some(format!("transparent input {i}: partial signature of {} does not verify", hex::encode(pk)));
+                }
+            }
+        }
+        Ok(())
+    });
+    let _ = Verifier::new(p.clone()).with_sapling::<(), _>(|sb| {
+        for (i, sp) in sb.spends().iter().enumerate() {
+            if let Some(sig) = sp.spend_auth_sig() {
+                n += 1;
+                if sp.rk().verify(&b.sighash_parts, sig).is_err() {
+                    bad = Some(format!("sapling spend {i}: spend_auth_sig does not verify under rk"));
+                }
+            }
+        }
+        Ok(())
+    });
+    for ironwood in [false, true] {
+        let f = |ob: &orchard::pczt::Bundle| {
+            for (i, a) in ob.actions().iter().enumerate() {
+                if let Some(sig) = a.spend().spend_auth_sig() {
+                    n += 1;
+                    if a.spend().rk().verify(&b.sighash_parts, sig).is_err() {
+                        bad = Some(format!("{} action {i}: spend_auth_sig does not verify under rk", if ironwood { "ironwood" } else { "orchard" }));
+                    }
+                }
+            }
+            Ok(())
+        };
+        let _ = if ironwood { Verifier::new(p.clone()).with_ironwood::<(), _>(f).map(|_| ()) } else { Verifier::new(p.clone()).with_orchard::<(), _>(f).map(|_| ()) };
+    }
+    match bad {
+        Some(m) => Err(Fail::new("signature-invalid", m)),
+        None => Ok(n),
+    }
+}
+
+fn apply_step(b: &Base, p: &Pczt, step: &Step, snapshots: &[Pczt], gone: &mut BTreeSet<Key>, uni: &[Key], settable: &[Key]) -> Result<Pczt, Fail> {
+    use pczt::roles::{io_finalizer::IoFinalizer, low_level_signer, signer::Signer, spend_finalizer::SpendFinalizer, updater::Updater, verifier::Verifier};
+    match step {
+        Step::Add(list) => {
+            let mut r = Recipe::default();
+            for (sel, v) in list {
+                if settable.is_empty() {
+                    break;
+                }
+                let k = settable[pick_index(*sel, settable.len())];
+                // anchors and witnesses: only the real values here (replacing them is the combination check's business)
+                let v = match k {
+                    Key::SAnchor | Key::OAnchor(_) | Key::SSp(_, recipe::SSp::Witness) | Key::OAct(_, _, OA::SpWitness) | Key::OAct(_, _, OA::EncRepr) => 0,
+                    _ => *v,
+                };
+                if matches!(k, Key::OAct(_, _, OA::EncRepr)) {
+                    continue;
+                }
+                r.st.insert(k, St::Set(v));
+            }
+            r.normalise(b);
+            recipe::apply_to(b, p.clone(), &r)
+        }
+        Step::SignHigh(mask) => {
+            let mut bit = 0;
+            let mut take = || {
+                bit += 1;
+                mask & (1 << ((bit - 1) % 16)) != 0
+            };
+            let mut q = p.clone();
+            // the Signer's Sapling API needs the proof generation key
+            let s_sel: Vec<usize> = b.s_spend_idx.iter().copied().filter(|_| take()).collect();
+            if !s_sel.is_empty() {
+                let pgk = b.s_extsk.as_ref().unwrap().expsk.proof_generation_key();
+                q = Updater::new(q)
+                    .update_sapling_with(|mut u| {
+                        for i in &s_sel {
+                            u.update_spend_with(*i, |mut su| su.set_proof_generation_key(pgk.clone()))?;
+                        }
+                        Ok(())
+                    })
+                    .map_err(soft("Updater::update_sapling_with"))?
+                    .finish();
+            }
+            let mut signer = Signer::new(q).map_err(soft("Signer::new"))?;
+            vensure_eq!(signer.shielded_sighash(), b.sighash_parts, "sighash-wrong", "Signer::shielded_sighash vs the hash computed from the builder's parts");
+            for i in 0..b.n_tin {
+                if take() {
+                    // finalized P2SH inputs have lost their redeem script; the Signer then refuses
+                    vensure_eq!(
+                        signer.transparent_sighash(i).map_err(soft("Signer::transparent_sighash"))?,
+                        b.t_sighash_parts[i],
+                        "sighash-wrong",
+                        "Signer::transparent_sighash({i}) vs the hash computed from the builder's parts"
+                    );
+                    signer.sign_transparent(i, &b.t_sks[i][0]).map_err(soft("Signer::sign_transparent"))?;
+                }
+            }
+            for i in &s_sel {
+                signer.sign_sapling(*i, &b.s_extsk.as_ref().unwrap().expsk.ask).map_err(soft("Signer::sign_sapling"))?;
+            }
+            for i in &b.o_sign_idx {
+                if take() {
+                    signer
+                        .sign_orchard(*i, &orchard::keys::SpendAuthorizingKey::from(b.o_sk.as_ref().unwrap()))
+                        .map_err(soft("Signer::sign_orchard"))?;
+                }
+            }
+            for i in &b.i_sign_idx {
+                if take() {
+                    signer
+                        .sign_ironwood(*i, &orchard::keys::SpendAuthorizingKey::from(b.i_sk.as_ref().unwrap()))
+                        .map_err(soft("Signer::sign_ironwood"))?;
+                }
+            }
+            Ok(signer.finish())
+        }
+        Step::Redact(list) => {
+            let mut r = Recipe::default();
+            for (sel, any) in list {
+                let k = if *any || settable.is_empty() { uni[pick_index(*sel, uni.len())] } else { settable[pick_index(*sel, settable.len())] };
+                if let Key::OAct(pool, i, OA::EncRepr) = k {
+                    if recipe::memo_ok(b, pool, i) {
+                        r.st.insert(k, St::Set(1));
+                    }
+                } else {
+                    r.st.insert(k, St::Absent);
+                    gone.insert(k);
+                }
+            }
+            Ok(recipe::redact(b, p.clone(), &r))
+        }
+        Step::CombineSelf => {
+            let q = combine(vec![p.clone(), p.clone()])?.map_err(|e| Fail::new("combine-not-idempotent", format!("combine(p,p) failed: {e:?}")))?;
+            vensure!(ser2(&q) == ser2(p), "combine-not-idempotent", "combine(p,p) != p");
+            Ok(q)
+        }
+        Step::CombineSnapshot(i, order) => {
+            let other = snapshots[*i as usize % snapshots.len()].clone();
+            let list = if *order { vec![p.clone(), other] } else { vec![other, p.clone()] };
+            match combine(list)? {
+                Ok(q) => Ok(q),
+                Err(CombineError::DataMismatch) => Err(Fail::new(SOFT, "Combiner: DataMismatch with an earlier snapshot")),
+                Err(e) => Err(Fail::new("conflict-wrong-error", format!("{e:?}"))),
+            }
+        }
+        Step::FinalizeSpends => SpendFinalizer::new(p.clone()).finalize_spends().map_err(soft("SpendFinalizer::finalize_spends")),
+        Step::Verify(w) => {
+            let v = Verifier::new(p.clone());
+            let (q, pool) = match w {
+                0 => (v.with_transparent::<(), _>(|_| Ok(())).map_err(soft("Verifier::with_transparent"))?.finish(), None),
+                1 => (v.with_sapling::<(), _>(|_| Ok(())).map_err(soft("Verifier::with_sapling"))?.finish(), None),
+                2 => (v.with_orchard::<(), _>(|_| Ok(())).map_err(soft("Verifier::with_orchard"))?.finish(), Some(recipe::Pool::Orchard)),
+                _ => (v.with_ironwood::<(), _>(|_| Ok(())).map_err(soft("Verifier::with_ironwood"))?.finish(), Some(recipe::Pool::Ironwood)),
+            };
+            // the Verifier only looks: unless it had to resolve compacted fields, nothing changes
+            if pool.map_or(true, |pl| !compacted(p, pl)) {
+                vensure!(ser2(&q) == ser2(p), "verifier-changed-pczt", "Verifier (bundle {w}) returned a different PCZT: {}", first_diff(&format!("{q:#?}"), &format!("{p:#?}")));
+            }
+            Ok(q)
+        }
+        Step::Roundtrip(forced_v2) => {
+            // known finding v1-sapling-absent-anchor-placeholder: not re-reported from here
+            if !b.v6 && p.sapling().spends().is_empty() && p.sapling().anchor().is_none() && !*forced_v2 {
+                return Err(Fail::new(SOFT, "skipped (known placeholder finding)"));
+            }
+            let bytes = if *forced_v2 { ser2(p) } else { p.clone().serialize().map_err(|e| Fail::new("accepted-not-serializable", format!("{e:?}")))? };
+            let q = Pczt::parse(&bytes).map_err(|e| Fail::new("own-encoding-rejected", format!("{e:?}")))?;
+            vensure!(ser2(&q) == ser2(p), "roundtrip-value-changed", "parse(serialize(p)) is not p: {}", first_diff(&format!("{q:#?}"), &format!("{p:#?}")));
+            Ok(q)
+        }
+        Step::IoFinalizeAgain => IoFinalizer::new(p.clone()).finalize_io().map_err(soft("IoFinalizer::finalize_io")),
+        Step::LowLevelNoop(w) => {
+            let s = low_level_signer::Signer::new(p.clone());
+            let (q, pool) = match w {
+                0 => (s.sign_transparent_with::<recipe::LErr, _>(|_, _, _| Ok(())).map_err(soft("low_level_signer::sign_transparent_with"))?.finish(), None),
+                1 => (s.sign_sapling_with::<recipe::LErr, _>(|_, _, _| Ok(())).map_err(soft("low_level_signer::sign_sapling_with"))?.finish(), None),
+                2 => (s.sign_orchard_with::<recipe::LErr, _>(|_, _, _| Ok(())).map_err(soft("low_level_signer::sign_orchard_with"))?.finish(), Some(recipe::Pool::Orchard)),
+                _ => (s.sign_ironwood_with::<recipe::LErr, _>(|_, _, _| Ok(())).map_err(soft("low_level_signer::sign_ironwood_with"))?.finish(), Some(recipe::Pool::Ironwood)),
+            };
+            if pool.map_or(true, |pl| !compacted(p, pl)) {
+                vensure!(ser2(&q) == ser2(p), "low-level-signer-changed-pczt", "a signing closure that does nothing changed the PCZT (bundle {w}): {}", first_diff(&format!("{q:#?}"), &format!("{p:#?}")));
+            }
+            Ok(q)
+        }
+    }
+}
+
+fn describe_step(step: &Step, uni: &[Key], settable: &[Key]) -> String {
+    match step {
+        Step::Add(l) if !settable.is_empty() => format!("Add{:?}", l.iter().map(|(s, v)| (settable[pick_index(*s, settable.len())], *v)).collect::<Vec<_>>()),
+        Step::Redact(l) => format!(
+            "Redact{:?}",
+            l.iter()
+                .map(|(s, any)| if *any || settable.is_empty() { uni[pick_index(*s, uni.len())] } else { settable[pick_index(*s, settable.len())] })
+                .collect::<Vec<_>>()
+        ),
+        s => format!("{s:?}"),
+    }
+}
+
+fn check_roles(ctx: &Ctx, c: &RolesCase) -> CaseResult {
+    use zcash_primitives::transaction::txid::{to_txid, TxIdDigester};
+    let nb = n_bases(ctx);
+    let bidx = pick_index(c.base_sel, nb) as u32;
+    let b: Arc<Base> = base::base(ctx.seed, bidx);
+    let txid0 = b.txid_parts;
+    let head = format!("base {bidx} {:?}", b.shape);
+    // the id implied before any role ran: three routes, one answer
+    vensure_eq!(pczt_txid(&b.pre_io).ok(), Some(txid0), "creator-txid-wrong", "pczt_txid(Creator::build_from_parts(parts)) vs the id of the parts [{head}]");
+    vensure_eq!(pczt_txid(&b.pczt).ok(), Some(txid0), "io-finalizer-changed-txid", "pczt_txid after the IO Finalizer [{head}]");
+    let eff = b.pczt.clone().into_effects().map_err(|e| Fail::new("effects-unavailable", format!("into_effects(base) failed: {e:?} [{head}]")))?;
+    let d = eff.digest(TxIdDigester);
+    vensure_eq!(to_txid(eff.version(), eff.consensus_branch_id(), &d), txid0, "effects-txid-wrong", "txid of into_effects() [{head}]");
+
+    let uni = universe(&b);
+    let settable: Vec<Key> = uni.iter().copied().filter(|k| set_vals(&b, k) > 0).collect();
+    let mut p = if c.refinalize {
+        pczt::roles::io_finalizer::IoFinalizer::new(b.pre_io.clone())
+            .finalize_io()
+            .map_err(|e| Fail::new("role-rejected-valid-request", format!("IoFinalizer on the creator's PCZT: {e:?} [{head}]")))?
+    } else {
+        b.pczt.clone()
+    };
+    let mut snapshots = vec![p.clone()];
+    let mut gone: BTreeSet<Key> = BTreeSet::new();
+    let (mut ok_steps, mut refused, mut sigs, mut unpromised) = (0u64, 0u64, 0u64, 0u64);
+    let mut kinds: BTreeSet<&'static str> = BTreeSet::new();
+    let mut trace = vec![];
+    for (si, step) in c.steps.iter().enumerate() {
+        let name: &'static str = match step {
+            Step::Add(_) => "updater/apply-signature",
+            Step::SignHigh(_) => "signer",
+            Step::Redact(_) => "redactor",
+            Step::CombineSelf | Step::CombineSnapshot(..) => "combiner",
+            Step::FinalizeSpends => "spend-finalizer",
+            Step::Verify(_) => "verifier",
+            Step::Roundtrip(_) => "bytes",
+            Step::IoFinalizeAgain => "io-finalizer",
+            Step::LowLevelNoop(_) => "low-level-signer",
+        };
+        let mut gone2 = gone.clone();
+        let r = catch(|| apply_step(&b, &p, step, &snapshots, &mut gone2, &uni, &settable))
+            .map_err(|e| Fail::new(format!("role-panic:{}", dep_site(&e)), format!("step {si} ({name}) panicked: {e} [{head}; steps so far {trace:?}]")))?;
+        match r {
+            Err(f) if f.signature == SOFT => {
+                refused += 1;
+                trace.push(format!("{name}:refused({})", f.msg.chars().take(60).collect::<String>()));
+                continue;
+            }
+            Err(f) => return Err(Fail::new(f.signature, format!("step {si} ({name}): {} [{head}; steps so far {trace:?}; step {}]", f.msg, describe_step(step, &uni, &settable)))),
+            Ok(q) => {
+                gone = gone2;
+                let promised = effects_promised(&b, &q, &gone);
+                match pczt_txid(&q) {
+                    Ok(t) => vensure_eq!(t, txid0, "role-changed-txid", "after step {si} ({name}) the PCZT implies another transaction id [{head}; steps so far {trace:?}; step {}]", describe_step(step, &uni, &settable)),
+                    Err(e) => {
+                        vensure!(!promised, "effects-unavailable", "after step {si} ({name}) pczt_txid fails with {e:?} although every field the effects need is present or derivable [{head}; steps so far {trace:?}; step {}]", describe_step(step, &uni, &settable));
+                        unpromised += 1;
+                    }
+                }
+                if matches!(step, Step::Add(_) | Step::SignHigh(_)) || si + 1 == c.steps.len() {
+                    sigs += verify_signatures(&b, &q).map_err(|f| Fail::new(f.signature, format!("after step {si} ({name}): {} [{head}; steps so far {trace:?}; step {}]", f.msg, describe_step(step, &uni, &settable))))?;
+                }
+                ok_steps += 1;
+                kinds.insert(name);
+                trace.push(describe_step(step, &uni, &settable));
+                p = q;
+                snapshots.push(p.clone());
+            }
+        }
+    }
+    let mut obs = Obs::new(kinds.len() >= 3)
+        .key(hash64(format!("{bidx}|{:?}", c.steps).as_bytes()))
+        .count("role-steps-applied", ok_steps)
+        .count("role-steps-refused", refused)
+        .count("signatures-verified", sigs)
+        .count("states-without-computable-effects", unpromised)
+        .label_if(c.refinalize, "io-finalizer-rerun")
+        .label(if b.v6 { "base-v6" } else { "base-v5" });
+    for k in kinds {
+        obs = obs.label(k);
+    }
+    Ok(obs)
+}
+
+// ---------------------------------------------------------------------------------------------
+// Prove + extract (thorough tier only)
+// ---------------------------------------------------------------------------------------------
+
+struct Proving {
+    sapling: zcash_proofs::prover::LocalTxProver,
+    spend_vk: sapling::circuit::SpendVerifyingKey,
+    output_vk: sapling::circuit::OutputVerifyingKey,
+}
+
+fn proving() -> &'static Proving {
+    static P: std::sync::OnceLock<Proving> = std::sync::OnceLock::new();
+    P.get_or_init(|| {
+        let (spend, output) = wagyu_zcash_parameters::load_sapling_parameters();
+        let sapling = zcash_proofs::prover::LocalTxProver::from_bytes(&spend, &output);
+        let (spend_vk, output_vk) = sapling.verifying_keys();
+        Proving { sapling, spend_vk, output_vk }
+    })
+}
+
+fn orchard_keys(v6: bool) -> &'static (orchard::circuit::ProvingKey, orchard::circuit::VerifyingKey) {
+    use orchard::circuit::{OrchardCircuitVersion as V, ProvingKey, VerifyingKey};
+    static K5: std::sync::OnceLock<(ProvingKey, VerifyingKey)> = std::sync::OnceLock::new();
+    static K6: std::sync::OnceLock<(ProvingKey, VerifyingKey)> = std::sync::OnceLock::new();
+    if v6 {
+        K6.get_or_init(|| (ProvingKey::build(V::PostNu6_3), VerifyingKey::build(V::PostNu6_3)))
+    } else {
+        K5.get_or_init(|| (ProvingKey::build(V::FixedPostNu6_2), VerifyingKey::build(V::FixedPostNu6_2)))
+    }
+}
+
+#[derive(Clone, Debug)]
+struct ExtractCase {
+    base_sel: u32,
+    /// order in which the parties' copies reach the Combiner
+    order: [u8; 5],
+    redact: Vec<(u32, bool)>,
+    /// the signing party works on the PCZT that has no anchors / witnesses / proof keys yet
+    sign_early: bool,
+    finalize_in_signer_copy: bool,
+    roundtrip: bool,
+}
+
+fn arb_extract_case() -> impl Strategy<Value = ExtractCase> {
+    (
+        any::<u32>(),
+        prop::array::uniform5(any::<u8>()),
+        prop::collection::vec((any::<u32>(), any::<bool>()), 0..10),
+        any::<bool>(),
+        any::<bool>(),
+        any::<bool>(),
+    )
+        .prop_map(|(base_sel, order, redact, sign_early, finalize_in_signer_copy, roundtrip)| ExtractCase {
+            base_sel,
+            order,
+            redact,
+            sign_early,
+            finalize_in_signer_copy,
+            roundtrip,
+        })
+}
+
+fn check_extract(ctx: &Ctx, c: &ExtractCase) -> CaseResult {
+    use pczt::roles::{prover::Prover, spend_finalizer::SpendFinalizer, tx_extractor::TransactionExtractor};
+    use recipe::{Pool, SSp};
+    let nb = n_bases(ctx).min(512);
+    let bidx = pick_index(c.base_sel, nb) as u32;
+    let b: Arc<Base> = base::base(ctx.seed, bidx);
+    let head = format!("base {bidx} {:?}", b.shape);
+    let head2 = head.clone();
+    let hard = |what: &'static str| {
+        let head = head.clone();
+        move |f: Fail| Fail::new(if f.signature == SOFT { "extract-path-rejected".to_string() } else { f.signature }, format!("{what}: {} [{head}]", f.msg))
+    };
+
+    // what the provers need: anchors + witnesses (deferred builder) and Sapling proof generation keys
+    let mut prep = Recipe::default();
+    if b.deferred {
+        for (pool, n, idx) in [(Pool::Orchard, b.n_oact, &b.o_spend_idx), (Pool::Ironwood, b.n_iact, &b.i_spend_idx)] {
+            if n > 0 {
+                prep.st.insert(Key::OAnchor(pool), St::Set(0));
+            }
+            for i in idx {
+                prep.st.insert(Key::OAct(pool, *i as u8, OA::SpWitness), St::Set(0));
+            }
+        }
+    }
+    for i in &b.s_spend_idx {
+        prep.st.insert(Key::SSp(*i as u8, SSp::Pgk), St::Set(0));
+    }
+    let prepared = recipe::apply_to(&b, b.pczt.clone(), &prep).map_err(hard("installing anchors, witnesses and proof generation keys"))?;
+
+    // the signing party
+    let mut sign = Recipe::default();
+    for i in 0..b.n_tin {
+        sign.st.insert(Key::TInSig(i as u8, 0), St::Set(0));
+        if b.p2sh[i] {
+            sign.st.insert(Key::TInSig(i as u8, 1), St::Set(0));
+        }
+    }
+    for i in &b.s_spend_idx {
+        sign.st.insert(Key::SSp(*i as u8, SSp::Sig), St::Set(if c.sign_early { 1 } else { 0 }));
+    }
+    for (pool, idx) in [(Pool::Orchard, &b.o_sign_idx), (Pool::Ironwood, &b.i_sign_idx)] {
+        for i in idx {
+            sign.st.insert(Key::OAct(pool, *i as u8, OA::Sig), St::Set((*i % 2) as u8));
+        }
+    }
+    let sign_from = if c.sign_early { b.pczt.clone() } else { prepared.clone() };
+    let mut signed = recipe::apply_to(&b, sign_from, &sign).map_err(hard("signing"))?;
+    let mut finalized = false;
+    if c.finalize_in_signer_copy {
+        signed = SpendFinalizer::new(signed).finalize_spends().map_err(|e| Fail::new("extract-path-rejected", format!("SpendFinalizer on the fully signed copy: {e:?} [{head2}]")))?;
+        finalized = true;
+    }
+
+    // the proving parties, each on its own copy
+    let mut copies = vec![signed];
+    let pr = proving();
+    if b.n_sspend + b.n_sout > 0 {
+        let q = catch(|| Prover::new(prepared.clone()).create_sapling_proofs(&pr.sapling, &pr.sapling))
+            .map_err(|e| Fail::new(format!("role-panic:{}", dep_site(&e)), format!("Prover::create_sapling_proofs panicked: {e} [{head2}]")))?
+            .map_err(|e| Fail::new("extract-path-rejected", format!("Prover::create_sapling_proofs: {e:?} [{head2}]")))?
+            .finish();
+        copies.push(q);
+    }
+    let (pk, vk) = orchard_keys(b.v6);
+    if b.n_oact > 0 {
+        let q = catch(|| Prover::new(prepared.clone()).create_orchard_proof(pk))
+            .map_err(|e| Fail::new(format!("role-panic:{}", dep_site(&e)), format!("Prover::create_orchard_proof panicked: {e} [{head2}]")))?
+            .map_err(|e| Fail::new("extract-path-rejected", format!("Prover::create_orchard_proof: {e:?} [{head2}]")))?
+            .finish();
+        copies.push(q);
+    }
+    if b.n_iact > 0 {
+        let q = catch(|| Prover::new(prepared.clone()).create_ironwood_proof(pk))
+            .map_err(|e| Fail::new(format!("role-panic:{}", dep_site(&e)), format!("Prover::create_ironwood_proof panicked: {e} [{head2}]")))?
+            .map_err(|e| Fail::new("extract-path-rejected", format!("Prover::create_ironwood_proof: {e:?} [{head2}]")))?
+            .finish();
+        copies.push(q);
+    }
+    // a party that only redacted (never bsk: known finding combine-drops-bsk)
+    {
+        let uni = universe(&b);
+        let mut r = Recipe::default();
+        for (sel, _) in &c.redact {
+            let k = uni[pick_index(*sel, uni.len())];
+            if matches!(k, Key::SBsk | Key::OBsk(_) | Key::OAct(_, _, OA::EncRepr)) {
+                continue;
+            }
+            r.st.insert(k, St::Absent);
+        }
+        copies.push(recipe::redact(&b, prepared.clone(), &r));
+    }
+    for cp in &copies {
+        if let Some(t) = txid_of(cp) {
+            vensure_eq!(t, b.txid_parts, "role-changed-txid", "a proving / signing / redacting copy implies another transaction id [{head2}]");
+        }
+    }
+    // combine in the generated order
+    let mut order: Vec<usize> = (0..copies.len()).collect();
+    for i in (1..order.len()).rev() {
+        order.swap(i, c.order[i % 5] as usize % (i + 1));
+    }
+    let list: Vec<Pczt> = order.iter().map(|i| copies[*i].clone()).collect();
+    let mut p = combine(list)?.map_err(|e| Fail::new("combine-rejected-compatible", format!("combining the provers', signer's and redactor's copies (order {order:?}) failed: {e:?} [{head2}]")))?;
+    if std::env::var("C13_DEBUG").is_ok() {
+        let show = |q: &Pczt| -> String {
+            format!(
+                "o={:?} i={:?}",
+                q.orchard().actions().iter().map(|a| a.spend().spend_auth_sig().is_some()).collect::<Vec<_>>(),
+                q.ironwood().actions().iter().map(|a| a.spend().spend_auth_sig().is_some()).collect::<Vec<_>>()
+            )
+        };
+        for (i, cp) in copies.iter().enumerate() {
+            eprintln!("copy {i}: {}", show(cp));
+        }
+        eprintln!("combined: {} real o={:?} i={:?}", show(&p), b.o_spend_idx, b.i_spend_idx);
+    }
+    if !finalized {
+        p = SpendFinalizer::new(p).finalize_spends().map_err(|e| Fail::new("extract-path-rejected", format!("SpendFinalizer on the combined PCZT: {e:?} [{head2}]")))?;
+    }
+    if c.roundtrip {
+        let bytes = p.clone().serialize().map_err(|e| Fail::new("accepted-not-serializable", format!("{e:?}")))?;
+        p = Pczt::parse(&bytes).map_err(|e| Fail::new("own-encoding-rejected", format!("{e:?} [{head2}]")))?;
+    }
+    vensure_eq!(pczt_txid(&p).ok(), Some(b.txid_parts), "role-changed-txid", "fully proven and signed PCZT implies another transaction id [{head2}]");
+    let tx = catch(|| TransactionExtractor::new(p.clone()).with_sapling(&pr.spend_vk, &pr.output_vk).with_orchard(vk).extract())
+        .map_err(|e| Fail::new(format!("role-panic:{}", dep_site(&e)), format!("TransactionExtractor::extract panicked: {e} [{head2}]")))?
+        .map_err(|e| Fail::new("extract-failed", format!("TransactionExtractor::extract on a fully proven and signed PCZT (combine order {order:?}): {e:?} [{head2}]")))?;
+    vensure_eq!(tx.txid(), b.txid_parts, "extracted-txid-differs", "tx.txid() vs the id computed before any role ran [{head2}]");
+    // exactly the requested effects
+    let (tin, tout) = tx.transparent_bundle().map(|t| (t.vin.len(), t.vout.len())).unwrap_or((0, 0));
+    vensure_eq!((tin, tout), (b.n_tin, b.n_tout), "extracted-effects-differ", "transparent inputs/outputs [{head2}]");
+    let (ss, so, svb) = tx.sapling_bundle().map(|s| (s.shielded_spends().len(), s.shielded_outputs().len(), i64::from(*s.value_balance()))).unwrap_or((0, 0, 0));
+    vensure_eq!((ss, so, svb), (b.n_sspend, b.n_sout, b.vb[1]), "extracted-effects-differ", "sapling spends/outputs/value balance [{head2}]");
+    let (oa, ovb) = tx.orchard_bundle().map(|o| (o.actions().len(), i64::from(*o.value_balance()))).unwrap_or((0, 0));
+    vensure_eq!((oa, ovb), (b.n_oact, b.vb[2]), "extracted-effects-differ", "orchard actions/value balance [{head2}]");
+    let (ia, ivb) = tx.ironwood_bundle().map(|o| (o.actions().len(), i64::from(*o.value_balance()))).unwrap_or((0, 0));
+    vensure_eq!((ia, ivb), (b.n_iact, b.vb[3]), "extracted-effects-differ", "ironwood actions/value balance [{head2}]");
+    vensure_eq!(u32::from(tx.expiry_height()), base::TARGET_HEIGHT + 40, "extracted-effects-differ", "expiry height [{head2}]");
+    vensure_eq!(tx.lock_time(), 0, "extracted-effects-differ", "lock time [{head2}]");
+    let tout_sum: i64 = tx.transparent_bundle().map(|t| t.vout.iter().map(|o| o.value().into_u64() as i64).sum()).unwrap_or(0);
+    let fee = b.vb.iter().sum::<i64>();
+    vensure!(fee > 0 && tout_sum >= 0, "extracted-effects-differ", "fee {fee}");
+    Ok(Obs::new(copies.len() >= 3)
+        .key(hash64(format!("{bidx}|{c:?}").as_bytes()))
+        .label(match b.shape.fmt {
+            base::Fmt::V5 => "base-v5",
+            base::Fmt::V6 => "base-v6",
+            base::Fmt::V6Deferred => "base-v6-deferred",
+        })
+        .label_if(b.n_sspend + b.n_sout > 0, "sapling-proofs")
+        .label_if(b.n_oact > 0, "orchard-proof")
+        .label_if(b.n_iact > 0, "ironwood-proof")
+        .label_if(c.sign_early, "signed-before-anchors")
+        .count("copies-combined", copies.len() as u64))
+}
+
+// ---------------------------------------------------------------------------------------------
+// Regression list (fixed cases worth re-running forever)
+// ---------------------------------------------------------------------------------------------
+
+const N_REGRESSION: u64 = 14 + 14 + 3 + 1 + 6;
+
+fn check_regression(ctx: &Ctx, i: u64) -> CaseResult {
+    use pczt::roles::redactor::Redactor;
+    match i {
+        // every template: own encoding accepted, fixed point, minimal version, ids agree
+        0..=13 => {
+            let b = base::base(ctx.seed, i as u32);
+            for (name, p) in [("creator", &b.pre_io), ("io-finalized", &b.pczt)] {
+                let bytes = p.clone().serialize().map_err(|e| Fail::new("accepted-not-serializable", format!("{e:?}")))?;
+                let o = check_pczt_bytes(&bytes).map_err(|f| Fail::new(f.signature, format!("{} [template {i} {name}]", f.msg)))?;
+                vensure!(o.accepted, "own-encoding-rejected", "template {i} {name}");
+                vensure_eq!(o.header_version, if b.v6 { 2 } else { 1 }, "version-not-minimal", "template {i} {name}: v5 PCZTs from the builder use v1, v6 PCZTs need v2");
+                vensure_eq!(pczt_txid(p).ok(), Some(b.txid_parts), "creator-txid-wrong", "template {i} {name}");
+            }
+            Ok(Obs::nontrivial().key(1000 + i).label("template-encoding"))
+        }
+        // every template: combine(base, base) = base; combine with the creator's (not yet IO-finalized)
+        // PCZT keeps the transaction
+        14..=27 => {
+            let b = base::base(ctx.seed, (i - 14) as u32);
+            let cc = combine(vec![b.pczt.clone(), b.pczt.clone()])?.map_err(|e| Fail::new("combine-not-idempotent", format!("{e:?}")))?;
+            vensure!(ser2(&cc) == ser2(&b.pczt), "combine-not-idempotent", "template {}", i - 14);
+            for list in [vec![b.pczt.clone(), b.pre_io.clone()], vec![b.pre_io.clone(), b.pczt.clone()]] {
+                if let Ok(q) = combine(list)? {
+                    if let Some(t) = txid_of(&q) {
+                        vensure_eq!(t, b.txid_parts, "combine-txid-changed", "creator + io-finalized copies, template {}", i - 14);
+                    }
+                }
+            }
+            Ok(Obs::nontrivial().key(2000 + i).label("template-idempotent"))
+        }
+        // known finding combine-drops-bsk, one bundle each (templates 3: Sapling, 1: Orchard, 7: Ironwood)
+        28..=30 => {
+            let (tpl, key) = [(3u32, Key::SBsk), (1, Key::OBsk(recipe::Pool::Orchard)), (7, Key::OBsk(recipe::Pool::Ironwood))][(i - 28) as usize];
+            let b = base::base(ctx.seed, tpl);
+            let mut r = Recipe::default();
+            r.st.insert(key, St::Absent);
+            let c0 = materialise(&b, &r)?;
+            vensure!(ser2(&c0) != ser2(&b.pczt), "harness-redaction-noop", "clearing {key:?} changes nothing");
+            let ab = combine(vec![b.pczt.clone(), c0.clone()])?.map_err(|e| Fail::new("combine-rejected-compatible", format!("{e:?}")))?;
+            let ba = combine(vec![c0, b.pczt.clone()])?.map_err(|e| Fail::new("combine-rejected-compatible", format!("{e:?}")))?;
+            vensure!(ser2(&ab) == ser2(&b.pczt), "combine-not-union", "combine([base, base-without-{key:?}]) is not base");
+            vensure!(ser2(&ba) == ser2(&b.pczt), "combine-drops-bsk", "combine([base-without-{key:?}, base]) loses the bsk that the second input carries (template {tpl})");
+            Ok(Obs::nontrivial().key(3000 + i).label("bsk"))
+        }
+        // known finding v1-sapling-absent-anchor-placeholder, the harmful form (template 2: v5, Sapling outputs only)
+        31 => {
+            let b = base::base(ctx.seed, 2);
+            let c0 = Redactor::new(b.pczt.clone()).redact_sapling_with(|mut s| s.clear_anchor()).finish();
+            let direct = combine(vec![c0.clone(), b.pczt.clone()])?.map_err(|e| Fail::new("combine-rejected-compatible", format!("{e:?}")))?;
+            vensure!(ser2(&direct) == ser2(&b.pczt), "combine-not-union", "anchor-less copy + full copy");
+            let via_bytes = Pczt::parse(&c0.serialize().map_err(|e| Fail::new("accepted-not-serializable", format!("{e:?}")))?)
+                .map_err(|e| Fail::new("own-encoding-rejected", format!("{e:?}")))?;
+            match combine(vec![via_bytes, b.pczt.clone()])? {
+                Ok(q) => vensure!(ser2(&q) == ser2(&b.pczt), "combine-not-union", "anchor-less copy (through bytes) + full copy"),
+                Err(e) => vfail!(
+                    "v1-sapling-absent-anchor-placeholder",
+                    "a copy whose Sapling anchor was redacted no longer combines with the full copy once it went through serialize/parse: {e:?}"
+                ),
+            }
+            Ok(Obs::nontrivial().key(3100).label("placeholder"))
+        }
+        // header handling
+        _ => {
+            let j = i - 32;
+            let bytes: Vec<u8> = match j {
+                0 => vec![],
+                1 => b"PCZT".to_vec(),
+                2 => b"PCZT\x01\0\0\0".to_vec(),
+                3 => b"PCZT\x02\0\0\0".to_vec(),
+                4 => b"PCZT\x03\0\0\0\0\0\0\0".to_vec(),
+                _ => {
+                    let mut v = base::base(ctx.seed, 0).pczt.clone().serialize().unwrap();
+                    v[0] = b'X';
+                    v
+                }
+            };
+            let o = check_pczt_bytes(&bytes)?;
+            vensure!(!o.accepted, "truncated-accepted", "header case {j} is accepted");
+            if i == 32 {
+                let e = combine(vec![])?;
+                vensure!(matches!(e, Err(CombineError::NoPczts)), "conflict-wrong-error", "Combiner of nothing: {:?}", e.map(|_| ()));
+            }
+            Ok(Obs::nontrivial().key(4000 + j).label("header"))
+        }
+    }
+}
+
 /// "payload @ /root/.cargo/registry/src/<index>/crate-1.2.3/src/x.rs:207" -> "crate-1.2.3/src/x.rs"
 fn dep_site(p: &str) -> String {
     let loc = p.rsplit_once(" @ ").map(|(_, l)| l).unwrap_or(p);
@@ -747,15 +1466,70 @@ fn main() {
         return;
     }
     let ctx = Ctx::from_args("C13", "exploration");
-    ctx.set_rule("scaffold");
-    {
+    ctx.set_rule(
+        "Bases: real PCZTs (Builder::build_for_pczt / DeferredPcztBuilder -> Creator::build_from_parts -> IoFinalizer) over 14 request \
+         templates (v5: t->t, t->o, t->s, s->s+o, o->o+t, mixed, P2SH 2-of-3; v6: t->i, i->i, o->i, s->i, t->t, deferred anchors), \
+         a function of (run seed, generated index); 192 bases quick / 4096 thorough. combine: 2..5 party copies, each the base with a \
+         generated per-field state (keep / remove with the Redactor / set with Updater, Signer, low-level Signer, Spend Finalizer) over \
+         every optional field kind; all permutations (n<=4, 24 sampled for n=5) plus random bracketings; expected value = the harness's \
+         field-wise union of the recipes, materialised through the roles; injected conflicting values / copies of another transaction must \
+         fail in every order. Non-trivial = >=2 copies whose carried fields differ in >=2 field kinds across >=2 bundles; distinct = hash \
+         of (base, recipes). encoding: one generated copy, its native / forced-v1 / forced-v2 bytes and 6..14 byte-level mutants + junk \
+         behind a valid header through check_pczt_bytes; non-trivial = copy differs from the base. roles: 3..12 role applications in \
+         generated order (Updater, Signer, apply-signature, low-level Signer, Redactor, Combiner, Spend Finalizer, Verifier, byte round \
+         trip, IO Finalizer again); non-trivial = >=3 different roles applied. prove-extract (thorough only): provers, signer and a \
+         redactor work on separate copies, combined in generated order, then extracted.",
+    );
+    ctx.assume("the transaction id computed from the builder's PcztParts with the transparent / sapling / orchard crates' extract_effects and zcash_primitives' txid digests is the reference id (no pczt-crate code involved)");
+    ctx.assume("roles may refuse (Err) when a field their documentation requires was redacted; a refusal is not a violation, a changed txid, a panic or a changed PCZT (Verifier, no-op signer) is");
+    ctx.assume("effects are promised computable iff v5 bundles with content carry their anchor, a missing cv_net has both values and rcv, a missing cmx / memo-plaintext ciphertext has the output's recipient, value and rseed, and an Orchard spend rseed is accompanied by its rho (orchard crate ParseError::MissingRho)");
+    ctx.assume("the verdict does not depend on signature / proof bytes produced with OsRng inside the roles (IoFinalizer dummy signatures, Signer::sign_*, Prover); signatures compared across copies are produced once per (base, spend, variant) with a seeded RNG");
+    ctx.assume("compact_resolvable_fields / decrypted memo recovery may leave undecryptable (padding) outputs unchanged, as documented; which outputs those are is observed once per base");
+    let only = std::env::var("C13_ONLY").ok();
+    let want = |s: &str| only.as_deref().map_or(true, |o| o == s);
+    if want("regression") {
+        let c2 = ctx.clone();
+        ctx.run_enum("regression", N_REGRESSION, true, move |i| check_regression(&c2, i), |i| format!("regression case {i}"));
+    }
+    if want("combine") {
         let c2 = ctx.clone();
         ctx.run_prop("combine", arb_combine_case, ctx.tier.pick(2_600, 150_000), move |c| check_combine(&c2, c));
     }
-    {
+    if want("encoding") {
         let c2 = ctx.clone();
         ctx.run_prop("encoding", arb_encoding_case, ctx.tier.pick(2_400, 120_000), move |c| check_encoding(&c2, c));
     }
-    let _ = BTreeMap::<u8, u8>::new();
+    if want("roles") {
+        let c2 = ctx.clone();
+        ctx.run_prop("roles", arb_roles_case, ctx.tier.pick(1_600, 80_000), move |c| check_roles(&c2, c));
+    }
+    if want("prove-extract") && (ctx.tier == vcore::Tier::Thorough || std::env::var("C13_FORCE_EXTRACT").is_ok()) {
+        let c2 = ctx.clone();
+        let n = std::env::var("C13_FORCE_EXTRACT").ok().and_then(|s| s.parse().ok()).unwrap_or(64);
+        ctx.run_prop_with("prove-extract", arb_extract_case, n, 64, move |c| check_extract(&c2, c));
+    }
+    if only.is_none() {
+        ctx.require_label_fraction("combine", "combined", 0.35);
+        ctx.require_label_fraction("combine", "conflict", 0.15);
+        ctx.require_label_fraction("combine", "base-v5", 0.2);
+        ctx.require_label_fraction("combine", "base-v6", 0.2);
+        ctx.require_label_fraction("combine", "base-v6-deferred", 0.05);
+        ctx.require_label_fraction("combine", "has-spend-finalizer-copy", 0.05);
+        ctx.require_label_fraction("combine", "with-roundtripped-copy", 0.15);
+        ctx.require_min_count("combine", "conflict-foreign-tx", 30);
+        ctx.require_label_fraction("encoding", "encoded-v1", 0.15);
+        ctx.require_label_fraction("encoding", "encoded-v2", 0.3);
+        ctx.require_label_fraction("encoding", "v5-forced-to-v2", 0.03);
+        ctx.require_min_count("encoding", "mutants-accepted", 2_000);
+        ctx.require_min_count("encoding", "mutants-rejected", 2_000);
+        for role in ["signer", "redactor", "combiner", "spend-finalizer", "verifier", "updater/apply-signature", "low-level-signer", "io-finalizer", "bytes"] {
+            ctx.require_label_fraction("roles", role, 0.1);
+        }
+        ctx.require_min_count("roles", "signatures-verified", 2_000);
+    }
+    ctx.extra(
+        "field_kinds",
+        vcore::serde_json::json!({"note": "every optional field kind of Global, transparent Input/Output, Sapling Bundle/Spend/Output and Orchard/Ironwood Bundle/Action is in the key universe (recipe.rs: enum Key)"}),
+    );
     ctx.finish();
 }
